@@ -4,6 +4,7 @@ pub mod c14;
 pub mod chain;
 pub mod elem;
 pub mod engine;
+pub mod faults;
 pub mod hasher;
 pub mod itercheck;
 pub mod mapworld;
